@@ -205,7 +205,9 @@ def run_mono(case, r):
                     r.fail("C08/mono-restart-duration", "step %d duration %r expected %r" % (i, m.duration, d))
                     return
                 dur = d
-                mstart = None   # exactness no longer tracked by the harness after a lossless restart
+                # the new period begins at the previous stop - possibly in the future (restart before expiry): on a clock
+                # that has only run forward its readings stay exact (elapsed may be negative until the period begins)
+                mstart = before_stop if not any_back else None
                 last_elapsed = last_expired = None
                 had_read = False
             elif k in ("elapsed", "expired", "remaining"):
